@@ -31,7 +31,7 @@ func (fc *FnCtx) callWith(instr ssa.Instruction, c *ssa.CallCommon, args []Val, 
 	// element pointers handed to the callee (or leaked into the heap earlier): the element storage of
 	// that sort may be written through them
 	if len(fc.eptr) > 0 {
-		for es := range fc.eptrLeaked {
+		for _, es := range sortedStrs(fc.eptrLeaked) {
 			fc.escapedRoots = append(fc.escapedRoots, "E:"+es)
 		}
 		for _, a := range c.Args {
@@ -434,12 +434,14 @@ func (fc *FnCtx) runDefer(d *deferRec, st *State) {
 	fc.callWith(d.instr, d.call, d.args, st)
 	if !isTrue(d.cond) && d.cond != st.reach {
 		// merge: effects only if registered
-		for k, v := range st.heap {
+		for _, k := range sortedStrs(st.heap) {
+			v := st.heap[k]
 			if bv, ok := before.heap[k]; ok && bv != v {
 				st.heap[k] = tb.Ite(d.cond, v, bv)
 			}
 		}
-		for a, v := range st.cells {
+		for _, a := range sortedAllocs(st.cells) {
+			v := st.cells[a]
 			if bv, ok := before.cells[a]; ok && bv != v {
 				st.cells[a] = tb.Ite(d.cond, v, bv)
 			}
